@@ -38,6 +38,10 @@ var c14Sources = []struct{ Name, Src string }{
 	{"fields", "package p\n\ntype T struct {\n\tA int\n\tB string\n}\n"},
 	{"generic", "package p\n\nfunc F[T any, U any](t T) {}\n\ntype G[T any] struct{}\n"},
 	{"@package", ""},
+	// roots that are not files (Replace of the root is legal there)
+	{"@root:decl", "package p\n\nfunc f() {\n\ta()\n\tb()\n}\n"},
+	{"@root:expr", "package p\n\nvar _ = f(a, b)\n"},
+	{"@root:stmt", "package p\n\nfunc f() {\n\tif a {\n\t\tb()\n\t}\n}\n"},
 }
 
 // actions on the current element
@@ -58,7 +62,7 @@ func init() {
 	core.Register(&core.Prop{
 		ID:    "C14",
 		Level: "model_checking",
-		Rule: "twin trees (dst via the decorator, go/ast via go/parser) for 15 small sources covering every list field plus a 3-file Package; a script assigns actions to sites (pre|post x node): quick = every 1-site script over 22 actions and every 2-site script over the 6 basic actions; thorough = every 2-site script over 22 actions and every 3-site script over the basic ones; the 22 actions are " +
+		Rule: "twin trees (dst via the decorator, go/ast via go/parser) for 15 small sources covering every list field, a 3-file Package, and three non-file roots (declaration, expression, statement); a script assigns actions to sites (pre|post x node): quick = every 1-site script over 22 actions and every 2-site script over the 6 basic actions; thorough = every 2-site script over 22 actions and every 3-site script over the basic ones; the 22 actions are " +
 			"(Replace, Delete, InsertBefore, InsertAfter, every ordered pair of them on the same element, return false, edit then false); every script is run through dstutil.Apply and golang.org/x/tools astutil.Apply (choice-tree exploration); " +
 			"oracle: identical callback logs (phase, node, parent, Name, Index), identical panics, identical final trees, plus Parent/Name/Index locate Node at every callback; state = distinct callback log; non-trivial = script with at least one action",
 		Assumptions: []string{"golang.org/x/tools v0.1.12 astutil.Apply is the reference; its Doc/Comment callbacks and nil TypeParams callbacks are removed from the comparison"},
@@ -193,7 +197,18 @@ func c14Build(name string) *c14Twin {
 				panic(err)
 			}
 			tw.aroot, tw.droot = f, df
-			label(f)
+			switch name {
+			case "@root:decl":
+				tw.aroot = f.Decls[0]
+			case "@root:expr":
+				tw.aroot = f.Decls[0].(*ast.GenDecl).Specs[0].(*ast.ValueSpec).Values[0]
+			case "@root:stmt":
+				tw.aroot = f.Decls[0].(*ast.FuncDecl).Body.List[0]
+			}
+			if tw.aroot != ast.Node(f) {
+				tw.droot = dec.Dst.Nodes[tw.aroot]
+			}
+			label(tw.aroot)
 			return tw
 		}
 	}
